@@ -438,7 +438,7 @@ def plan(prop, tier, seed):
                   # it is legitimately huge and nothing but a real timeout would bound it
                   "max_stack_depth": rng.choice([0, 1, 10, 10]) if len(t.split()) <= 4
                   else rng.choice([1, 10, 10]),
-                  "relative_match_len": rng.choice([1.0, 1.0, 0.9, 0.5, 0.1, 0.01]),
+                  "relative_match_len": rng.choice([1.0, 1.0, 0.9, 0.5, 0.1, 0.01, 1e-9, 0.999999, 0.3333333]),
                   "debug": rng.random() < 0.15}
             if rng.random() < 0.7:
                 it["ts"] = fmt_ts(workload.ref_time(rng, 1970, 2100))
